@@ -48,7 +48,8 @@ PROBES = ["waiter_parked_on_thread_lock_during_swap", "two_first_starts_racing",
           "nested_reentrant_call", "line_level_preemption", "contended_acquire",
           "query_while_other_task_waits", "fork", "spawn", "screen_redraw_step",
           "reply_later_than_timeout", "stale_reply_waiting_in_queue", "foreign_reply_seen_by_query",
-          "first_start_with_queries_disabled"]
+          "first_start_with_queries_disabled", "no_active_terminal",
+          "process_lock_creation_failed"]
 COMPONENTS = {
     "real": ["term_image.utils.lock_tty / query_terminal / read_tty / write_tty / get_cell_size",
              "_process_start_wrapper / _process_run_wrapper and the import-time Process patching "
@@ -108,6 +109,10 @@ def gen_program(ch, depth, budget, mode="getters"):
             # replies later than the timeout: plain reads and getters would legitimately pick
             # up stray bytes, so only attributable queries run in these worlds
             kinds = [(3, "probe"), (4, "query"), (2, "late_query"), (1, "write")]
+        elif mode == "notty":
+            # no active terminal at all: the functions are synchronized all the same (they
+            # guard whatever the application does under the lock)
+            kinds = [(1, "probe")]
         elif mode == "noquery":
             # queries are disabled before the first Process.start(): the functions
             # synchronized on the terminal lock stay synchronized all the same
@@ -160,7 +165,15 @@ def run(ch, ctx, fault=None):
     tty.delay_fn = (lambda kind: ch.int("delay", 0, dmax)) if dmax else (lambda kind: 0)
     budget = [ch.int("procs", 0, 2)]
     n_root = ch.int("root_threads", 1, 4)
-    mode = ch.pick("mode", ("getters", "getters", "screen", "screen", "late", "noquery"))
+    mode = ch.pick("mode", ("getters", "getters", "screen", "screen", "late", "noquery",
+                            "notty"))
+    if mode == "notty":
+        budget[0] = 0      # (without a terminal the library does not patch Process at all)
+    # a transient failure to create the process-shared lock at the first Process.start()
+    if fault is None and budget[0] and ch.bool("lock_creation_fault", 0.15):
+        fault = {"kind": "mp.rlock", "k": 1, "when": "before", "exc": "OSError"}
+        k.fault = fault
+        ctx.log("fault", fault)
     programs = [gen_program(ch, 0, budget, mode) for _ in range(n_root)]
     if k.policy == "pct":
         k.pct_points = tuple(sorted(ch.int("pctp", 1, 400) for _ in range(ch.int("pctd", 1, 3))))
@@ -192,6 +205,9 @@ def run(ch, ctx, fault=None):
         if mode == "noquery":
             w.ti.disable_queries()
             ctx.probe("first_start_with_queries_disabled")
+        if mode == "notty":
+            u0._tty_fd = -1
+            ctx.probe("no_active_terminal")
 
         # the urwid screen of process 0: its draw_screen / write / flush are synchronized on
         # the terminal lock, so nobody else may touch the terminal inside its synchronized-
@@ -376,8 +392,16 @@ def run(ch, ctx, fault=None):
                             ctx.probe("child_acquires_while_parent_thread_holds")
                         run_program(progs[0], child, "%s/c%d.t0" % (label, child.pid))
 
+                    fired0 = k.fault_done
                     try:
                         pw.start_process(target, method, "child-of-%s" % label)
+                    except OSError:
+                        # the injected lock-creation failure: the start fails loudly and no
+                        # child exists (a child running without the shared lock would show
+                        # up as an overlap)
+                        if not (k.fault_done and not fired0):
+                            raise
+                        ctx.probe("process_lock_creation_failed")
                     finally:
                         if first_start_window["active"]:
                             first_start_window["active"] -= 1
